@@ -384,6 +384,302 @@ Proof.
   vm_compute. repeat split.
 Qed.
 
+
+(* ================================================================== the fixed root directory inside WHOLE IMAGES
+   (Model/VolDir.v, Proofs/VolDirProofs.v, Proofs/VolDirFormat.v): the slot-layer functions above, applied to the root
+   region of a FAT12/16 device image and decoded by the whole-image decoder Spec/Abs.abs.
+   vol_create_empty_file_root = root_dir().create_file(name), vol_remove_empty_file_root = root_dir().remove(name) of a file
+   without clusters, vol_rename_in_root = root_dir().rename(src, &root_dir(), dst) of a file: read the region as slots, run
+   create_entry / remove_entry / rename_in_dir with kind FixedRoot, write the slots back (why this is the device content
+   the library leaves: comment in Model/VolDir.v; checked on whole devices by tools/props/cvol_corr.py).
+   [fixed_root_geom g]: FAT12/16, >= 512-byte sectors, >= 1 reserved sector and FAT copy, <= 65535 root entries filling
+   whole sectors, every cluster's FAT entry inside one copy, data area inside the volume.  Non-vacuous:
+   C01_vol_formatted_geom (every such volume format_volume makes) and the example at the end. *)
+From FatVerif Require Import Spec.Regions Model.VolDir Model.Format Spec.FormatSpec Model.FormatImage Spec.FormatImageSpec
+  Proofs.FatProofs Proofs.FormatImageProofs Proofs.VolDirProofs Proofs.VolDirFormat.
+From Coq Require Import Permutation.
+
+(* ---- writing ALL slots of the region back is harmless: a byte of the result differs from the image before only if it
+   lies inside the region, in a slot k whose new content differs from the slot the region held at index k; it then is
+   byte j of the new slot.  (The library writes only the slots it changes; the image is the same.) *)
+Theorem C01_vol_put_root_slots_changes : forall g im ss o,
+  length ss = N.to_nat (g_root_entries g) -> Forall (fun s => length s = 32%nat) ss ->
+  img_get (put_root_slots g im ss) o <> img_get im o ->
+  exists k j, (k < N.to_nat (g_root_entries g))%nat /\ (j < 32)%nat /\ o = g_root_off g + N.of_nat (32 * k + j) /\
+              nth k ss [] <> nth k (root_region_slots g im) [] /\
+              img_get (put_root_slots g im ss) o = nth j (nth k ss []) 0.
+Proof. intros g im ss o H1 H2. exact (put_root_slots_changes g im ss o (conj H1 H2)). Qed.
+Theorem C01_vol_root_region_roundtrip : forall g im ss,
+  length ss = N.to_nat (g_root_entries g) -> Forall (fun s => length s = 32%nat) ss ->
+  root_region_slots g (put_root_slots g im ss) = ss /\
+  (forall o, img_get (put_root_slots g im (root_region_slots g im)) o = img_get im o).
+Proof. intros g im ss H1 H2. split; [exact (root_region_put g im ss (conj H1 H2))|exact (put_root_slots_same g im)]. Qed.
+
+(* ---- (a) frame and (b) geometry, for EVERY outcome of the three operations: no byte outside the root region changes -
+   boot sector, FAT copies, data area, anything behind the volume; a byte that changes is classified RRoot by the region
+   classifier of Spec/Regions.v (C11) and lies in a slot of the region whose content changed; the decoder reads the same
+   geometry; the FAT as the decoder reads it is untouched: same value for every cluster, same free count, same
+   lost-cluster findings *)
+Definition vol_frame (im im' : image) : Prop :=
+  let g := parse_geom im in
+  (forall o, (o < g_root_off g \/ g_root_off g + g_root_entries g * 32 <= o) -> img_get im' o = img_get im o) /\
+  (forall o, img_get im' o <> img_get im o ->
+     (forall imx m, classify g imx m o = RRoot) /\
+     exists k j, (k < N.to_nat (g_root_entries g))%nat /\ (j < 32)%nat /\ o = g_root_off g + N.of_nat (32 * k + j) /\
+                 nth k (root_region_slots g im') [] <> nth k (root_region_slots g im) []) /\
+  parse_geom im' = g /\
+  count_free g im' = count_free g im /\
+  (forall c, in_range g c = true -> fat_val g im' c = fat_val g im c) /\
+  (forall m, Wf.lost_from g im' m 2 (N.to_nat (g_clusters g)) = Wf.lost_from g im m 2 (N.to_nat (g_clusters g))).
+Theorem C01_vol_frame : forall upper oem im,
+  fixed_root_geom (parse_geom im) ->
+  (forall name now r im', vol_create_empty_file_root upper oem im name now = (r, im') -> vol_frame im im') /\
+  (forall name r im', vol_remove_empty_file_root upper oem im name = Some (r, im') -> vol_frame im im') /\
+  (forall src dst r im', vol_rename_in_root upper oem im src dst = Some (r, im') -> vol_frame im im').
+Proof.
+  intros upper oem im Hg. split; [|split].
+  - intros name now r im' H. exact (vol_create_confined upper oem im name now r im' Hg H).
+  - intros name r im' H. exact (vol_remove_confined upper oem im name r im' Hg H).
+  - intros src dst r im' H. exact (vol_rename_confined upper oem im src dst r im' Hg H).
+Qed.
+
+(* ---- (c) create, decoded.  The root of [im] decodes without issue; create_file(name) made a new entry.  Then the decoded
+   root is the old list of nodes - each one EXACTLY as it was decoded before (entry, chain, content, children), in the same
+   order - with ONE new node inserted at the position of the slots the slot layer chose (first fit: e_first_slot = start of
+   the returned range): a plain file, no chain, no content, long name = UTF-16 of [name] (none for "." / "..": D21), size 0,
+   attributes 0, stamped by Model/Time.stamp_create now, under a legal alias that no old node has; still no decode issue;
+   labels, geometry, status byte, FS-info words as before. *)
+Theorem C01_vol_create_decodes : forall upper oem im name now range im',
+  fixed_root_geom (parse_geom im) -> v_root_issues (abs im) = [] -> TimeProofs.datetime_valid now = true ->
+  vol_create_empty_file_root upper oem im name now = (Ok (Some range), im') ->
+  exists ns1 ns2 ne st,
+    v_root (abs im) = ns1 ++ ns2 /\ v_root (abs im') = ns1 ++ NFile ne None [] :: ns2 /\
+    e_lfn ne = (if is_dot_name name then [] else utf16_encode name) /\ e_lfn_ok ne = true /\
+    e_size ne = 0 /\ e_cluster ne = 0 /\ e_attr ne = 0 /\ e_ntres ne = 0 /\
+    stamp_create now = Ok st /\
+    e_ctime_ms ne = create_time_0 st /\ e_ctime ne = create_time_1 st /\ e_cdate ne = create_date st /\
+    e_adate ne = access_date st /\ e_mtime ne = modify_time st /\ e_mdate ne = modify_date st /\
+    e_first_slot ne = fst range /\ e_sfn_slot ne + 1 = snd range /\
+    sfn_legal_b (e_sfn ne) = true /\ ~ In (e_sfn ne) (map e_sfn (map node_entry (v_root (abs im)))) /\
+    v_root_issues (abs im') = [] /\ v_labels (abs im') = v_labels (abs im) /\
+    v_geom (abs im') = v_geom (abs im) /\ v_root_chain (abs im') = v_root_chain (abs im) /\
+    v_status (abs im') = v_status (abs im) /\
+    v_fsinfo_free (abs im') = v_fsinfo_free (abs im) /\ v_fsinfo_next (abs im') = v_fsinfo_next (abs im).
+Proof. exact vol_create_decodes. Qed.
+
+(* ---- every other outcome of create - the file exists (Ok None: opened, nothing written), the name is a directory's
+   (InvalidInput), invalid, or the root has no room (NotEnoughSpace) -: every byte of the device is as before, and so is
+   everything decoded from it.  (Images are finite maps, so "unchanged" is byte-wise equality, not Leibniz equality.) *)
+Theorem C01_vol_create_failed_unchanged : forall fold upper oem im name now r im',
+  fixed_root_geom (parse_geom im) ->
+  vol_create_empty_file_root upper oem im name now = (r, im') -> (forall range, r <> Ok (Some range)) ->
+  (forall o, img_get im' o = img_get im o) /\ parse_geom im' = parse_geom im /\ abs im' = abs im /\
+  Wf.wf_issues fold im' = Wf.wf_issues fold im /\ count_free (parse_geom im) im' = count_free (parse_geom im) im.
+Proof. exact vol_create_failed_unchanged. Qed.
+
+(* ---- (c) remove of a file without clusters, decoded.  [attrs_sane]: as in C01_dir_refines_map.  The decoded root loses
+   exactly one node - the node of the entry the library's own lookup resolved [name] to (same raw short name and size;
+   not a directory, no cluster: a plain file without chain and content, unless its short name is a dot name) -; every
+   other node is there exactly as before, in order; no issue; labels, geometry, status byte as before.  Any other outcome
+   (NotFound, ...) leaves every byte as it was. *)
+Theorem C01_vol_remove_decodes : forall upper oem im name im',
+  fixed_root_geom (parse_geom im) -> v_root_issues (abs im) = [] ->
+  Forall attrs_sane (root_region_slots (parse_geom im) im) ->
+  vol_remove_empty_file_root upper oem im name = Some (Ok tt, im') ->
+  exists ns1 n ns2 ev,
+    v_root (abs im) = ns1 ++ n :: ns2 /\ v_root (abs im') = ns1 ++ ns2 /\
+    root_lookup upper oem im name = Ok ev /\ matches upper oem name ev = true /\
+    e_sfn (node_entry n) = Lfn.ev_raw_name ev /\
+    e_is_dir (node_entry n) = false /\ e_cluster (node_entry n) = 0 /\ e_size (node_entry n) = Lfn.ev_size ev /\
+    (e_is_dot (node_entry n) = false -> n = NFile (node_entry n) None []) /\
+    v_root_issues (abs im') = [] /\ v_labels (abs im') = v_labels (abs im) /\
+    v_geom (abs im') = v_geom (abs im) /\ v_status (abs im') = v_status (abs im).
+Proof. exact vol_remove_decodes. Qed.
+Theorem C01_vol_remove_failed_unchanged : forall fold upper oem im name r im',
+  fixed_root_geom (parse_geom im) ->
+  vol_remove_empty_file_root upper oem im name = Some (r, im') -> r <> Ok tt ->
+  (forall o, img_get im' o = img_get im o) /\ parse_geom im' = parse_geom im /\ abs im' = abs im /\
+  Wf.wf_issues fold im' = Wf.wf_issues fold im /\ count_free (parse_geom im) im' = count_free (parse_geom im) im.
+Proof. exact vol_remove_failed_unchanged. Qed.
+
+(* ---- (c) rename of a FILE inside the root (with or without clusters: rename never touches the FAT), decoded.
+   [attrs_sane], [bytes_ok] (every slot byte < 256): as in C01_dir_refines_map.  On success either nothing happened - the
+   destination is the stored spelling of the source's own name: every byte as before -, or the decoded root lost exactly the
+   node of the source entry and gained exactly one node (first fit; all other nodes exactly as before, same relative
+   order): the SAME cluster chain and the SAME content - FAT and data area are untouched and the new entry carries the
+   source's first cluster and size -, the source's attributes (bits 6-7 dropped), the new long name; its short name is a
+   fresh legal alias, or the source's own when only the spelling changes (D22); no issue; labels, geometry, status byte
+   as before.  Any other outcome leaves every byte as it was (in particular the source: D20). *)
+Theorem C01_vol_rename_decodes : forall upper oem im src dst im',
+  fixed_root_geom (parse_geom im) -> v_root_issues (abs im) = [] ->
+  Forall attrs_sane (root_region_slots (parse_geom im) im) ->
+  Forall DirSlotsProofs.bytes_ok (root_region_slots (parse_geom im) im) ->
+  vol_rename_in_root upper oem im src dst = Some (Ok tt, im') ->
+  exists ev,
+    root_lookup upper oem im src = Ok ev /\ matches upper oem src ev = true /\ Lfn.ev_is_dir ev = false /\
+    ((exists dv, check_for_existence upper oem (root_region_slots (parse_geom im) im) dst None = Ok (Exists dv) /\
+                 Lfn.ev_end dv = Lfn.ev_end ev /\ has_exact_name ev dst = true /\
+                 (forall o, img_get im' o = img_get im o) /\ abs im' = abs im) \/
+     (exists nx n ny nc nd n' ch content,
+        v_root (abs im) = nx ++ n :: ny /\ nx ++ ny = nc ++ nd /\ v_root (abs im') = nc ++ n' :: nd /\
+        e_sfn (node_entry n) = Lfn.ev_raw_name ev /\ e_is_dir (node_entry n) = false /\ e_is_dir (node_entry n') = false /\
+        (e_is_dot (node_entry n) = false -> n = NFile (node_entry n) ch content) /\
+        (e_is_dot (node_entry n') = false -> n' = NFile (node_entry n') ch content) /\
+        e_lfn (node_entry n') = (if is_dot_name dst then [] else utf16_encode dst) /\ e_lfn_ok (node_entry n') = true /\
+        e_attr (node_entry n') = e_attr (node_entry n) mod 64 /\
+        e_size (node_entry n') = e_size (node_entry n) /\ e_cluster (node_entry n') = e_cluster (node_entry n) /\
+        ((exists a, check_for_existence upper oem (root_region_slots (parse_geom im) im) dst None = Ok (Fresh a) /\
+                    e_sfn (node_entry n') = a /\ sfn_legal_b a = true /\
+                    ~ In a (map e_sfn (map node_entry (v_root (abs im))))) \/
+         (exists dv, check_for_existence upper oem (root_region_slots (parse_geom im) im) dst None = Ok (Exists dv) /\
+                     Lfn.ev_end dv = Lfn.ev_end ev /\ has_exact_name ev dst = false /\
+                     e_sfn (node_entry n') = e_sfn (node_entry n))) /\
+        v_root_issues (abs im') = [] /\ v_labels (abs im') = v_labels (abs im) /\
+        v_geom (abs im') = v_geom (abs im) /\ v_status (abs im') = v_status (abs im))).
+Proof. exact vol_rename_decodes. Qed.
+Theorem C01_vol_rename_failed_unchanged : forall fold upper oem im src dst r im',
+  fixed_root_geom (parse_geom im) ->
+  vol_rename_in_root upper oem im src dst = Some (r, im') -> r <> Ok tt ->
+  (forall o, img_get im' o = img_get im o) /\ parse_geom im' = parse_geom im /\ abs im' = abs im /\
+  Wf.wf_issues fold im' = Wf.wf_issues fold im /\ count_free (parse_geom im) im' = count_free (parse_geom im) im.
+Proof. exact vol_rename_failed_unchanged. Qed.
+
+(* ---- [fixed_root_geom] is what format_volume produces: every accepted FAT12/16 request whose root-entry count fills
+   whole sectors (the default 512 always does) *)
+Theorem C01_vol_formatted_geom : forall o ts bs t, builder_range o -> ts < 4294967296 ->
+  format_boot_sector_validated o ts = Ok (bs, t) -> t <> Format.Fat32 ->
+  (o_max_root_dir_entries o * 32) mod o_bytes_per_sector o = 0 ->
+  fixed_root_geom (geom_of (fbs_bpb bs)) /\ sp_clusters (fbs_bpb bs) <= 65524.
+Proof. exact formatted_fixed_root_geom. Qed.
+
+(* ---- (d) END TO END FROM ANY DEVICE CONTENT: format_volume of a FAT12/16 volume (premises of C06_image_decodes_empty),
+   then one create_file(name) in the root that made a new entry.  The independent decoder finds exactly ONE root node: a
+   plain file named [name], empty, without cluster, stamped with [now], under a legal alias; no decode issue; the label of
+   the request; the geometry of the boot sector; every cluster still free; no well-formedness issue (Spec/Wf.v) for any
+   case folding; no byte outside the root region differs from the formatted device. *)
+Theorem C01_vol_format_create_decodes : forall fold upper oem o ts im0 bs t im name now range im1,
+  builder_range o -> ts < 4294967296 -> FatProofs.bytes_ok im0 ->
+  format_boot_sector_validated o ts = Ok (bs, t) -> t <> Format.Fat32 ->
+  (o_max_root_dir_entries o * 32) mod o_bytes_per_sector o = 0 ->
+  format_image o ts im0 = Ok im -> TimeProofs.datetime_valid now = true ->
+  vol_create_empty_file_root upper oem im name now = (Ok (Some range), im1) ->
+  let g := geom_of (fbs_bpb bs) in
+  exists ne st,
+    v_root (abs im1) = [NFile ne None []] /\
+    e_lfn ne = (if is_dot_name name then [] else utf16_encode name) /\ e_lfn_ok ne = true /\
+    e_size ne = 0 /\ e_cluster ne = 0 /\ e_attr ne = 0 /\
+    stamp_create now = Ok st /\
+    e_ctime_ms ne = create_time_0 st /\ e_ctime ne = create_time_1 st /\ e_cdate ne = create_date st /\
+    e_adate ne = access_date st /\ e_mtime ne = modify_time st /\ e_mdate ne = modify_date st /\
+    sfn_legal_b (e_sfn ne) = true /\
+    v_root_issues (abs im1) = [] /\ v_labels (abs im1) = expected_labels o /\
+    parse_geom im1 = g /\ fixed_root_geom g /\
+    count_free g im1 = sp_clusters (fbs_bpb bs) /\
+    Wf.wf_issues fold im1 = [] /\
+    (forall x, (x < g_root_off g \/ g_root_off g + g_root_entries g * 32 <= x) -> img_get im1 x = img_get im x).
+Proof. exact format_create_decodes. Qed.
+
+(* ... the success premise above is not vacuous: on a freshly formatted FAT12/16 volume whose root has at least 22 entries
+   (label + 20 long-name slots + 1 short slot: room for ANY accepted name) create_file makes a new entry for EVERY name
+   validate_long_name accepts, under every valid clock value *)
+Theorem C01_vol_format_create_succeeds : forall upper oem o ts im0 bs t im name now,
+  builder_range o -> ts < 4294967296 -> FatProofs.bytes_ok im0 ->
+  format_boot_sector_validated o ts = Ok (bs, t) -> t <> Format.Fat32 ->
+  (o_max_root_dir_entries o * 32) mod o_bytes_per_sector o = 0 -> 22 <= o_max_root_dir_entries o ->
+  format_image o ts im0 = Ok im ->
+  validate_long_name name = Ok tt -> TimeProofs.datetime_valid now = true ->
+  exists range im1, vol_create_empty_file_root upper oem im name now = (Ok (Some range), im1).
+Proof. exact format_create_succeeds. Qed.
+
+(* ... and by induction ANY sequence of creates that each made a new entry ([vol_create_many]: None as soon as a create
+   finds its name in use or fails).  The root holds exactly one node per request (a permutation of the list in creation
+   order): plain empty files carrying exactly the requested names, pairwise distinct aliases; no decode issue; label,
+   geometry, free count of the formatted volume; nothing outside the root region touched; no well-formedness issue when
+   the folded names are pairwise distinct and none is a dot name. *)
+Theorem C01_vol_format_create_many_decodes : forall upper oem o ts im0 bs t im reqs im',
+  builder_range o -> ts < 4294967296 -> FatProofs.bytes_ok im0 ->
+  format_boot_sector_validated o ts = Ok (bs, t) -> t <> Format.Fat32 ->
+  (o_max_root_dir_entries o * 32) mod o_bytes_per_sector o = 0 ->
+  format_image o ts im0 = Ok im ->
+  Forall (fun q => TimeProofs.datetime_valid (snd q) = true) reqs ->
+  vol_create_many upper oem im reqs = Some im' ->
+  let g := geom_of (fbs_bpb bs) in
+  exists nodes,
+    Permutation (v_root (abs im')) nodes /\
+    map (fun n => e_lfn (node_entry n)) nodes = map (fun q => if is_dot_name (fst q) then [] else utf16_encode (fst q)) reqs /\
+    Forall (fun n => exists e, n = NFile e None [] /\ e_size e = 0 /\ e_cluster e = 0 /\ e_lfn_ok e = true) nodes /\
+    NoDup (map e_sfn (map node_entry (v_root (abs im')))) /\
+    length (v_root (abs im')) = length reqs /\
+    v_root_issues (abs im') = [] /\ v_labels (abs im') = expected_labels o /\
+    parse_geom im' = g /\ count_free g im' = sp_clusters (fbs_bpb bs) /\
+    (forall x, (x < g_root_off g \/ g_root_off g + g_root_entries g * 32 <= x) -> img_get im' x = img_get im x) /\
+    (forall fold, Forall (fun q => is_dot_name (fst q) = false) reqs ->
+                  NoDup (map (fun q => fold (utf16_encode (fst q))) reqs) -> Wf.wf_issues fold im' = []).
+Proof. exact format_create_many_decodes. Qed.
+(* the same for a volume that already holds entries: the old nodes stay as they were decoded, the new ones are added *)
+Theorem C01_vol_create_many_decodes : forall upper oem reqs im im',
+  fixed_root_geom (parse_geom im) -> v_root_issues (abs im) = [] ->
+  Forall (fun q => TimeProofs.datetime_valid (snd q) = true) reqs ->
+  vol_create_many upper oem im reqs = Some im' ->
+  parse_geom im' = parse_geom im /\ v_root_issues (abs im') = [] /\ v_labels (abs im') = v_labels (abs im) /\
+  count_free (parse_geom im) im' = count_free (parse_geom im) im /\
+  (forall o, (o < g_root_off (parse_geom im) \/ g_root_off (parse_geom im) + g_root_entries (parse_geom im) * 32 <= o) ->
+             img_get im' o = img_get im o) /\
+  exists news,
+    Permutation (v_root (abs im')) (v_root (abs im) ++ news) /\
+    map (fun n => e_lfn (node_entry n)) news = map (fun q => if is_dot_name (fst q) then [] else utf16_encode (fst q)) reqs /\
+    Forall (fun n => exists e, n = NFile e None [] /\ e_size e = 0 /\ e_cluster e = 0 /\ e_lfn_ok e = true) news /\
+    (NoDup (map e_sfn (map node_entry (v_root (abs im)))) -> NoDup (map e_sfn (map node_entry (v_root (abs im'))))).
+Proof. exact vol_create_many_decodes. Qed.
+
+(* ---- the 64-sector FAT12 volume of Props/C06.v (ex_img_request: 16 root entries, label, device filled with 0xD1; the root
+   region is bytes 1536..2047, slot 0 holds the label).  "hello world.txt" is created (slots 1-3), then "b" (slots 4-5), then
+   "HELLO WORLD.TXT" is removed (found through the long name, case-insensitively), then "B" is renamed to "c.d": the new
+   entry goes FIRST FIT into the freed slots 1-2, then slots 4-5 are deleted.  After every step the whole image decodes to
+   exactly these names; at the end: one node, no issue, 60 free clusters, the label, bytes behind the root region
+   (device fill 0xD1) and the FAT (F8 FF FF) untouched.  A 200-character name does not fit (NotEnoughSpace), "/" is refused,
+   "C.D" exists (Ok None): the device stays as it was. *)
+Example C01_vol_example :
+  let U := upper_ascii in let O := oem_decode_lossy in
+  let names im := map (fun n => e_lfn (node_entry n)) (v_root (abs im)) in
+  let c1 := vol_create_empty_file_root U O ex_vol_im ex_vol_name1 ex_vol_now in
+  let c2 := vol_create_empty_file_root U O (snd c1) [98] ex_vol_now in
+  (exists bs, format_boot_sector_validated ex_vol_request 64 = Ok (bs, Format.Fat12) /\
+     format_image ex_vol_request 64 (img_empty 209) = Ok ex_vol_im /\
+     (o_max_root_dir_entries ex_vol_request * 32) mod o_bytes_per_sector ex_vol_request = 0 /\
+     fixed_root_geom (parse_geom ex_vol_im) /\ TimeProofs.datetime_valid ex_vol_now = true) /\
+  builder_range ex_vol_request /\ FatProofs.bytes_ok (img_empty 209) /\
+  fst c1 = Ok (Some (1, 4)) /\ names (snd c1) = [ex_vol_name1] /\
+  fst c2 = Ok (Some (4, 6)) /\ names (snd c2) = [ex_vol_name1; [98]] /\
+  vol_create_many U O ex_vol_im [(ex_vol_name1, ex_vol_now); ([98], ex_vol_now)] = Some (snd c2) /\
+  match vol_remove_empty_file_root U O (snd c2) [72; 69; 76; 76; 79; 32; 87; 79; 82; 76; 68; 46; 84; 88; 84] with
+  | Some (r3, im3) =>
+    r3 = Ok tt /\ names im3 = [[98]] /\
+    match vol_rename_in_root U O im3 [66] [99; 46; 100] with
+    | Some (r4, im4) =>
+      r4 = Ok tt /\
+      (exists e, v_root (abs im4) = [NFile e None []] /\ e_lfn e = [99; 46; 100] /\
+                 e_sfn e = [67; 32; 32; 32; 32; 32; 32; 32; 68; 32; 32] /\ e_first_slot e = 1 /\ e_sfn_slot e = 2) /\
+      v_root_issues (abs im4) = [] /\ v_labels (abs im4) = [[65; 66; 67; 68; 69; 70; 71; 72; 73; 74; 75]] /\
+      Wf.wf_issues (fun l => l) im4 = [] /\ count_free (parse_geom im4) im4 = 60 /\
+      map (fun k => img_get im4 (1536 + 32 * k)) [0; 1; 2; 3; 4; 5; 6] = [65; 65; 67; 229; 229; 229; 0] /\
+      img_read im4 2046 4 = [0; 0; 209; 209] /\ img_read im4 510 5 = [85; 170; 248; 255; 255] /\
+      fst (vol_create_empty_file_root U O im4 (repeat_N 120 200) ex_vol_now) = Err ENotEnoughSpace /\
+      fst (vol_create_empty_file_root U O im4 [47] ex_vol_now) = Err EUnsupportedFileNameCharacter /\
+      fst (vol_create_empty_file_root U O im4 [67; 46; 68] ex_vol_now) = Ok None /\
+      img_read (snd (vol_create_empty_file_root U O im4 (repeat_N 120 200) ex_vol_now)) 1536 200 = img_read im4 1536 200 /\
+      option_map fst (vol_remove_empty_file_root U O im4 [120]) = Some (Err ENotFound)
+    | None => False
+    end
+  | None => False
+  end.
+Proof.
+  cbv zeta. split; [exact ex_vol_premises|]. split; [exact ex_vol_request_in_range|].
+  split; [apply FatProofs.img_empty_bytes_ok; Lia.lia|].
+  vm_compute. repeat (split; [reflexivity|]). split; [|repeat (split; [reflexivity|]); reflexivity].
+  eexists. repeat (split; [reflexivity|]). reflexivity.
+Qed.
+
 Print Assumptions C01_image_write_frame.
 Print Assumptions C01_find_free_entries_spec.
 Print Assumptions C01_failed_write_unchanged_partial.
@@ -402,3 +698,17 @@ Print Assumptions C01_dir_refines_map.
 Print Assumptions C01_remove_entry_insane_refuted.
 Print Assumptions C01_has_exact_name_spec.
 Print Assumptions C01_decoded_sfn_length.
+Print Assumptions C01_vol_put_root_slots_changes.
+Print Assumptions C01_vol_root_region_roundtrip.
+Print Assumptions C01_vol_frame.
+Print Assumptions C01_vol_create_decodes.
+Print Assumptions C01_vol_create_failed_unchanged.
+Print Assumptions C01_vol_remove_decodes.
+Print Assumptions C01_vol_remove_failed_unchanged.
+Print Assumptions C01_vol_rename_decodes.
+Print Assumptions C01_vol_rename_failed_unchanged.
+Print Assumptions C01_vol_formatted_geom.
+Print Assumptions C01_vol_format_create_decodes.
+Print Assumptions C01_vol_format_create_succeeds.
+Print Assumptions C01_vol_format_create_many_decodes.
+Print Assumptions C01_vol_create_many_decodes.
